@@ -107,51 +107,69 @@ impl<R: Read> GenomeIO<R> {
             None => return Ok(None),
         };
 
-        let mut contig = Contig::new();
-
-        // Read ID line (starts with '>')
-        // Check if we have a buffered header from previous read
-        let header_line = if let Some(buffered) = self.next_header.take() {
-            buffered
-        } else {
-            self.buffer.clear();
-            let bytes_read = reader.read_until(b'\n', &mut self.buffer)?;
-            if bytes_read == 0 {
-                return Ok(None);
-            }
-            self.buffer.clone()
-        };
-
-        // Extract ID (skip '>' and trim whitespace)
-        let id_line = String::from_utf8_lossy(&header_line);
-        let id = id_line.trim_start_matches('>').trim().to_string();
-
-        // Read sequence data until next '>' or EOF
+        // A record without any sequence line, or blank lines before the first header, are
+        // skipped (they are not the end of the input): loop until a record with data or EOF.
         loop {
-            self.buffer.clear();
-            let bytes_read = reader.read_until(b'\n', &mut self.buffer)?;
+            let mut contig = Contig::new();
 
-            if bytes_read == 0 {
-                // EOF reached
-                break;
+            // Read ID line (starts with '>')
+            // Check if we have a buffered header from previous read
+            let header_line = if let Some(buffered) = self.next_header.take() {
+                buffered
+            } else {
+                self.buffer.clear();
+                let bytes_read = reader.read_until(b'\n', &mut self.buffer)?;
+                if bytes_read == 0 {
+                    return Ok(None);
+                }
+                self.buffer.clone()
+            };
+
+            // Extract ID (skip '>' and trim whitespace)
+            let id_line = String::from_utf8_lossy(&header_line);
+            let id = id_line.trim_start_matches('>').trim().to_string();
+
+            // Read sequence data until next '>' or EOF
+            loop {
+                self.buffer.clear();
+                let bytes_read = reader.read_until(b'\n', &mut self.buffer)?;
+
+                if bytes_read == 0 {
+                    // EOF reached
+                    break;
+                }
+
+                // Check if this is the start of a new contig
+                if !self.buffer.is_empty() && self.buffer[0] == b'>' {
+                    // Save this header for the next read
+                    self.next_header = Some(self.buffer.clone());
+                    break;
+                }
+
+                // Append sequence data
+                contig.extend_from_slice(&self.buffer);
             }
 
-            // Check if this is the start of a new contig
-            if !self.buffer.is_empty() && self.buffer[0] == b'>' {
-                // Save this header for the next read
-                self.next_header = Some(self.buffer.clone());
-                break;
+            if id.is_empty() {
+                // Blank line(s) where a header was expected: skip them, but do not drop
+                // sequence data that has no header.
+                if contig.iter().all(|c| c.is_ascii_whitespace()) {
+                    continue;
+                }
+                return Err(io::Error::new(
+                    io::ErrorKind::InvalidData,
+                    "FASTA sequence data without a header line",
+                ));
             }
 
-            // Append sequence data
-            contig.extend_from_slice(&self.buffer);
-        }
+            if contig.is_empty() {
+                // Header directly followed by the next header: a record without sequence,
+                // not the end of the input (EOF is detected above).
+                continue;
+            }
 
-        if id.is_empty() || contig.is_empty() {
-            return Ok(None);
+            return Ok(Some((id, contig)));
         }
-
-        Ok(Some((id, contig)))
     }
 
     /// Internal implementation of contig reading with optional conversion
